@@ -213,6 +213,24 @@ theorem C12_short_forms :
     monthDayShort ['0', '2', '3', '0'] = none ∧ monthDaySyntactic ['0', '2', '3', '0'] = some ((2, 30), []) := by
   decide
 
+/-- **Time-zone strings: nothing is altered silently.** When an ISO string names a zone by its numeric UTC offset
+(no bracketed annotation), the zone's offset in minutes is exactly the offset written — a string whose offset has
+seconds or a fraction names no zone; and a bracketed annotation, when present, is what decides. -/
+theorem C12_zone_offset_exact (ns m : Int) (h : zoneOfParts (some (.num ns)) none = some (.off m)) :
+    ns = m * 60000000000 := by
+  unfold zoneOfParts at h
+  simp only at h
+  split at h
+  · rename_i hz
+    cases h
+    exact (Int.ediv_mul_cancel (Int.dvd_of_emod_eq_zero hz)).symm
+  · cases h
+
+theorem C12_zone_annotation_decides (off : Option POffset) (crit : Bool) (n : List Char) :
+    zoneOfParts off (some (crit, .name n)) = some (.name n) := rfl
+
+theorem C12_zone_needs_offset_or_annotation : zoneOfParts none none = none := rfl
+
 end TemporalModel
 
 #print axioms TemporalModel.C12_digitsN
@@ -224,3 +242,4 @@ end TemporalModel
 #print axioms TemporalModel.C12_annotation_rules
 #print axioms TemporalModel.C12_month_code_zero
 #print axioms TemporalModel.C12_short_forms
+#print axioms TemporalModel.C12_zone_offset_exact
